@@ -160,7 +160,7 @@ func panicSites(repo string) (string, error) {
 		short = dir[strings.LastIndex(dir, "/")+1:] + "/" + short
 		fname := f.decl.Name.Name
 		if f.decl.Recv != nil && len(f.decl.Recv.List) > 0 {
-			fname = recvName(f.decl.Recv.List[0].Type) + "." + fname
+			fname = psRecvName(f.decl.Recv.List[0].Type) + "." + fname
 		}
 		src, _ := os.ReadFile(fileName)
 		text := func(e ast.Node) string {
@@ -545,14 +545,14 @@ func terminates(b *ast.BlockStmt) bool {
 	return false
 }
 
-func recvName(e ast.Expr) string {
+func psRecvName(e ast.Expr) string {
 	switch t := e.(type) {
 	case *ast.StarExpr:
-		return recvName(t.X)
+		return psRecvName(t.X)
 	case *ast.Ident:
 		return t.Name
 	case *ast.IndexExpr:
-		return recvName(t.X)
+		return psRecvName(t.X)
 	}
 	return "?"
 }
